@@ -23,12 +23,12 @@ CONSTANTS NT,       \* number of requested time points (uniform grid starting at
 Sources  == {"model", "iface_plain", "iface_safe", "neither", "both"}
 Volumes  == {"off", "flag", "number", "object", "dividing"}
 Delays   == {"none", "false", "true"}
-Models   == {"plain", "delays", "rules", "both", "decay1"}
+Models   == {"plain", "delays", "rules", "both", "decay1", "inert"}   \* inert: the plain network with no molecules (total propensity 0)
 
 \* ---- the five test models as data: species in model order, initial state, assignment rules
 \* (target index, coefficient vector, constant) applied in declaration order at the initial instant
 Species(m) == IF m = "decay1" THEN <<"X">> ELSE <<"A", "B", "C">>
-X0(m) == IF m = "decay1" THEN <<5>> ELSE <<3, 1, 0>>
+X0(m) == IF m = "decay1" THEN <<5>> ELSE IF m = "inert" THEN <<0, 0, 0>> ELSE <<3, 1, 0>>
 Rules(m) == IF m \in {"rules", "both"}
             THEN << [tgt |-> 2, coef |-> <<2, 0, 0>>, k |-> 0],      \* start:  B = 2*A
                     [tgt |-> 3, coef |-> <<1, 1, 0>>, k |-> 1] >>    \* repeat: C = A + B + 1
